@@ -378,7 +378,17 @@ impl<'a> ExpressionVisitor<'a> for CodeBuilder<'a> {
         let (ty, arguments) = match function {
             BuiltinFunctionKind::ConsoleLog(_) => {
                 // Not all types can be sent to QDebug stream, but it's unlikely we would
-                // use such type in QML.
+                // use such type in QML. An empty list literal has no type at all, so there
+                // would be no C++ expression to send.
+                if let Some(a) = arguments
+                    .iter()
+                    .find(|a| a.type_desc() == TypeDesc::EmptyList)
+                {
+                    return Err(ExpressionError::OperationOnUndeterminedType(
+                        "console".to_owned(),
+                        a.type_desc(),
+                    ));
+                }
                 Ok((TypeKind::VOID, arguments))
             }
             BuiltinFunctionKind::Max | BuiltinFunctionKind::Min => {
